@@ -125,7 +125,7 @@ structure FrameR (σ : Sh) (i : Nat) (fs ft : Frame) : Prop where
   function : fs.function = ft.function.map (renFn σ)
   counters : σ.n0 ≤ i → fs.getMiss = ft.getMiss ∧ fs.cantCache = ft.cantCache ∧ fs.numSet = ft.numSet
 
-/-- the "same closure" test of `NewFunctionEnvironment` (repo fix 15db210: same text AND same defining environment) is
+/-- the "same closure" test of `NewFunctionEnvironment` (repo fix 0558004: same text AND same defining environment) is
 invariant under the renaming: the shift of frame indices is injective -/
 theorem sameFunction_ren (σ : Sh) {fs ft : Frame} (hk : fs.cacheKey = ft.cacheKey)
     (hf : fs.function = ft.function.map (renFn σ)) (f : FuncVal) :
